@@ -194,7 +194,7 @@ func (nt *c13Net) addNodes(k int) ([]*c13Node, error) {
 			WithConfigFolder(folder),
 			WithDBStorageEngine(nt.engine),
 			WithDkgKickoffGracePeriod(1 * time.Second),
-			WithDkgPhaseTimeout(3 * time.Second),
+			WithDkgPhaseTimeout(5 * time.Second),
 			WithPrivateListenAddress(addr),
 			WithControlPort(test.FreePort()),
 			WithNamedLogger(fmt.Sprintf("[node %d]", idx)),
